@@ -14,8 +14,12 @@ EXTENDS Integers, Sequences, SequencesExt, FiniteSets, TLC, Json
 
 CONSTANTS OutFile, MaxSettings, AllOrders
 
-Types == { [ref |-> r, sel |-> g, age |-> a] : r \in {"foo", ""}, g \in {"g1", "g2", "!bad"}, a \in {1, 2} }
-Populations == UNION { [1..n -> Types] : n \in 1..MaxSettings }
+Min2(a, b) == IF a <= b THEN a ELSE b
+Types == { [ref |-> r, sel |-> g, age |-> a] : r \in {"foo", "other", ""}, g \in {"g1", "g2", "!bad"}, a \in {1, 2} }
+\* all populations up to two settings; of three settings: all (Full) or those in which every setting selects g1 (maximal overlap)
+CONSTANT Full
+Populations == UNION { [1..n -> Types] : n \in 1..Min2(MaxSettings, 2) } \cup
+               (IF MaxSettings < 3 THEN {} ELSE IF Full THEN [1..3 -> Types] ELSE [1..3 -> { t \in Types : t.sel = "g1" }])
 
 NodeGroups == [n1 |-> "g1", n2 |-> "g2", n3 |-> ""]
 NodeNames == {"n1", "n2", "n3"}
